@@ -73,6 +73,17 @@ class Report:
         self.t0 = time.time()
         self.assumptions: list[str] = []
         self.extra: dict = {}
+        self.analysis_errors: list[str] = []
+
+    def run(self, fn, *args) -> None:
+        """Run one group of rules; an AnalysisError inside it is recorded (exit 2 unless a real violation
+        is found elsewhere, which takes precedence) instead of aborting the other groups."""
+        from .srcindex import AnalysisError
+
+        try:
+            fn(*args)
+        except AnalysisError as e:
+            self.analysis_errors.append(f"{getattr(fn, '__name__', '?')}: {e}")
 
     def rule(self, rule: str, description: str, floor: int | None = None) -> RuleResult:
         r = RuleResult(rule, description, floor=floor)
@@ -84,7 +95,7 @@ class Report:
         from .srcindex import AnalysisError
 
         for r in self.rules:
-            if r.floor is not None and r.instances < r.floor:
+            if r.floor is not None and r.instances < r.floor and not self.analysis_errors:
                 raise AnalysisError(
                     f"rule {r.rule} evaluated {r.instances} instances, below the floor {r.floor} confirmed by hand "
                     f"(a rule that matches too few sites would pass vacuously)"
@@ -131,6 +142,7 @@ class Report:
             "discharged": discharged,
             "known_findings_matched": len(matched),
             "new_violations": len(new),
+            "analysis_errors": list(self.analysis_errors),
             "samples": samples or ["(none)"],
             "rules": [
                 {
@@ -171,6 +183,8 @@ class Report:
             f"{self.prop} [{self.tier}]: {obligations} rule instances, {discharged} discharged, "
             f"{len(matched)} known findings, {len(new)} new violations, {ev['wall_s']} s"
         )
+        for e in self.analysis_errors:
+            print(f"ANALYSIS-ERROR property={self.prop}: {e}")
         if new:
             vpath = EVIDENCE_DIR / f"{self.prop}.violation.json"
             vpath.write_text(json.dumps([f.to_json() for f in new], indent=1, ensure_ascii=False) + "\n")
@@ -184,7 +198,7 @@ class Report:
             vpath = EVIDENCE_DIR / f"{self.prop}.violation.json"
             if vpath.exists():
                 vpath.unlink()
-        return 0
+        return 2 if self.analysis_errors else 0
 
 
 def load_known() -> list[dict]:
